@@ -159,7 +159,7 @@ Ltac expose10 := cbv beta iota zeta delta [custom_spline exp_spline_callable buc
 '''
 
 def goal(idx, term, value, tol):
-    return ('Goal True. Proof. first [ assert (Rabs (%s - %s) <= %s) by (expose10; interval with (i_prec 120, i_depth 5)) | idtac "PFAIL %d" ]. exact I. Qed.'
+    return ('Goal True. Proof. first [ timeout 120 (first [ assert (Rabs (%s - %s) <= %s) by (expose10; interval with (i_prec 120, i_depth 5)) | idtac "PFAIL %d" ]) | idtac "PSKIP" ]. exact I. Qed.'
             % (term, rq(value), rq(tol), idx))
 
 def case_goals(i, case, o):
